@@ -86,6 +86,9 @@ impl Default for SrvCfg {
     }
 }
 
+pub const CLOSE_WATCHDOG_S: u64 = 60;
+pub const CLOSE_HUNG: &str = "CLOSE_HUNG";
+
 pub struct Running {
     pub rt: Option<tokio::runtime::Runtime>,
     pub server: Option<HttpServer<C>>,
@@ -194,10 +197,22 @@ impl Running {
         // HttpServer::close() panics ("failed to send close signal") when the server's
         // accept-loop task is already gone; that is a finding for the caller to judge,
         // not a reason for the harness to die
-        let r = crate::panics::catch_quiet(std::panic::AssertUnwindSafe(|| rt.block_on(server.close())));
-        Some(match r {
-            Ok(r) => r,
-            Err(p) => Err(format!("close() panicked: {}", p.message)),
+        // bounded, and bounded from OUTSIDE the server's runtime (its timers stop when
+        // every worker thread is stuck): a helper thread drives close(), this thread
+        // waits for it with a std timeout; callers see CLOSE_HUNG in the error text
+        let handle = rt.handle().clone();
+        let (tx, rx) = std::sync::mpsc::channel();
+        let spawned = std::thread::Builder::new().name("vmon-close".into()).spawn(move || {
+            let r = crate::panics::catch_quiet(std::panic::AssertUnwindSafe(|| handle.block_on(server.close())));
+            let _ = tx.send(r);
+        });
+        if spawned.is_err() {
+            return Some(Err("could not spawn the close() helper thread".into()));
+        }
+        Some(match rx.recv_timeout(std::time::Duration::from_secs(CLOSE_WATCHDOG_S)) {
+            Ok(Ok(r)) => r,
+            Ok(Err(p)) => Err(format!("close() panicked: {}", p.message)),
+            Err(_) => Err(format!("{CLOSE_HUNG}: close() did not return within {CLOSE_WATCHDOG_S} s")),
         })
     }
 
